@@ -65,7 +65,8 @@ CALLS = {
     'conciliate': [('ok', ('STOP',), None), ('user', ('USER',), None),
                    ('bad_strategy', ('BOGUS',), INCORRECT_PARAMETERS)],
     'restart_sequence': [('ok', (False,), None)],
-    'end_sync': [('ok', ('',), None), ('named', ('10.0.0.1:25000',), None), ('bad_name', ('nowhere',), BAD_NAME)],
+    'end_sync': [('ok', ('',), None), ('named', ('10.0.0.1:25000',), None), ('nick', ('10.0.0.1',), None),
+                 ('peer_nick', ('10.0.0.2',), None), ('bad_name', ('nowhere',), BAD_NAME)],
     'restart': [('ok', (), None)],
     'shutdown': [('ok', (), None)],
 }
@@ -167,6 +168,11 @@ def gate(src):
             # documented: BAD_SUPVISORS_STATE when there is no Master instance to perform the request
             src.check('no-master-is-a-documented-fault', fault == BAD_STATE, sig=sig, fault=fault)
             src.check('rejected-request-has-no-effect', before == after, sig=sig)
+    if method == 'end_sync' and fault is None:
+        # served: the Master that is now known (if any) is a real Supvisors identifier
+        src.reach('end-sync-served')
+        src.check('end-sync-names-a-real-instance', after['master'] in ('',) + tuple(ids), sig=sig,
+                  master=after['master'])
     if fault is not None:
         src.check('fault-means-no-request', before['requests'] == after['requests']
                   and before['updater'] == after['updater'], sig=sig, fault=fault)
